@@ -38,6 +38,7 @@ structure Obs where
   stops : Nat
   sent : List (Nat × SCmd)
   st : NS
+  lost : List NS := []          -- publications the cluster provider refused (UpdateClusterState returned an error), in order
   deriving DecidableEq, Repr
 
 structure Mon where
@@ -68,6 +69,16 @@ def lastOr (d : NS) : List NS → NS
   | [] => d
   | [s] => s
   | _ :: rest => lastOr d rest
+
+/-- `u` is an order-preserving interleaving of `p` and `l`: every state the node handed to
+`UpdateNodeState` reached the provider exactly once and was either accepted (`p`) or refused
+(`l`), in that order — nothing repeated, retried, invented or reordered.  With `l = []` this
+is `p = u` (`isMerge_no_loss`). -/
+def isMerge : List NS → List NS → List NS → Bool
+  | [], p, l => p.isEmpty && l.isEmpty
+  | u :: us, p, l =>
+    (match p with | x :: p' => x == u && isMerge us p' l | [] => false) ||
+    (match l with | y :: l' => y == u && isMerge us p l' | [] => false)
 
 def isRetireCmd : Cmd → Bool
   | .retire | .webRetire => true | _ => false
@@ -109,8 +120,9 @@ def Mon.clauses (m : Mon) (op : MOp) (o : Obs) : List (Bool × String) :=
     (!monotoneFrom m.cur.rank o.pubs, "C12/state-regression"),
     -- the published state is the node's state: what reaches the cluster is the node's own sequence of
     -- state changes, in that order, and ends at the node's state
-    (lastOr m.cur o.pubs != o.st, "C12/published-state-differs"),
-    (o.pubs != o.upd, "C12/published-sequence-differs"),
+    -- (when the provider refused one of them, the node's own sequence is what ends at the node's state)
+    (lastOr m.cur (if o.lost.isEmpty then o.pubs else o.upd) != o.st, "C12/published-state-differs"),
+    (!isMerge o.upd o.pubs o.lost, "C12/published-sequence-differs"),
     -- StopNode at most once, and only as part of an accepted exit
     (decide (m.stopsTotal + o.stops > 1), "C12/stopnode-twice"),
     (decide (o.stops > 0) && !exitAccepted op o, "C12/stopnode-without-exit"),
@@ -196,6 +208,11 @@ def sentOf (es : List Evt) : List (Nat × SCmd) :=
 def obsOf (s' : St) (es : List Evt) : Obs :=
   { reply := replyOf es, pubs := pubsOf es, upd := pubsOf es, stops := stops es, sent := sentOf es, st := s'.st }
 
+/-- the model's observation when the cluster provider follows the fault script `sc`: the
+provider sees the accepted publications, the refused ones are reported as lost -/
+def obsOfL (sc : List Bool) (s' : St) (es : List Evt) : Obs :=
+  { obsOf s' es with pubs := delivered sc (pubsOf es), lost := lostOf sc (pubsOf es) }
+
 /-- the operation as the monitor sees it: a support answer counts as a declaration only if
 the node's query was still outstanding (the weakest reading — every extra declaration the
 monitor is told about can only make it more permissive) -/
@@ -212,5 +229,12 @@ def mopOf (s : St) : Op → MOp
 def traceOf (s : St) : List Op → List (MOp × Obs)
   | [] => []
   | o :: os => (mopOf s o, obsOf (step true s o).1 (step true s o).2) :: traceOf (step true s o).1 os
+
+/-- the observable trace of the model from state `s` with a provider following the fault script `sc` -/
+def traceOfL (sc : List Bool) (s : St) : List Op → List (MOp × Obs)
+  | [] => []
+  | o :: os =>
+    (mopOf s o, obsOfL sc (step true s o).1 (step true s o).2) ::
+      traceOfL (scriptAfter sc (pubsOf (step true s o).2).length) (step true s o).1 os
 
 end Cell2v.Spec.C12
